@@ -317,7 +317,7 @@ func (p *parser) parseBin(min int) (Expr, error) {
 }
 
 func (p *parser) parseUnary() (Expr, error) {
-	if p.isOp("!") || p.isOp("-") {
+	if p.isOp("!") || p.isOp("-") || p.isOp("*") {
 		op := p.next().s
 		x, err := p.parseUnary()
 		if err != nil {
